@@ -677,3 +677,36 @@ class Ctx:
         r = z3.And(*conds)
         inst._cache["ok"] = r
         return r
+
+
+def equals_ref(ca, ia, cb, ib, depth=0):
+    """Reference Equals of two instances of the same type (DESIGN.md A.2):
+    both agree on the presence of every physical field (and parameter) and
+    every present physical field reads equal, recursively."""
+    if depth > 8:
+        raise Unsupported("Equals recursion too deep")
+    conds = []
+    for name in ia.params:
+        pa, pb = ia.params[name], ib.params[name]
+        conds.append(z3.And(pa.known, pb.known, pa.v == pb.v))
+    for f in ca.physical_fields(ia):
+        ea, eb = ca.exists(ia, f), cb.exists(ib, f)
+        conds.append(z3.And(ea.known, eb.known, ea.v == eb.v))
+        ra, rb = ca.field(ia, f), cb.field(ib, f)
+        conds.append(z3.Or(z3.Not(ea.v), _field_equal(ca, ra, cb, rb, depth)))
+    return z3.And(*conds) if conds else T
+
+
+def _field_equal(ca, ra, cb, rb, depth):
+    if isinstance(ra, Scalar):
+        if ra.val.kind == "float":
+            raise Unsupported("floating-point equality")
+        return ra.val.v == rb.val.v
+    if isinstance(ra, Aggregate):
+        return equals_ref(ca, ra.inst, cb, rb.inst, depth + 1)
+    if isinstance(ra, Array):
+        conds = [ra.count == rb.count]
+        for i, (ea, eb) in enumerate(zip(ra.elems, rb.elems)):
+            conds.append(z3.Or(z3.ULE(ra.count, I(i)), _field_equal(ca, ea, cb, eb, depth)))
+        return z3.And(*conds)
+    raise Unsupported("field kind in Equals")
